@@ -12,7 +12,7 @@ SEPS = [";", ",", "|", "\t", "~", "§", "¦"]
 # includes characters that str.splitlines() treats as line breaks but file iteration does not
 # (form feed, FS/RS, NEL, LINE SEPARATOR, VT): they are ordinary in-line characters of a CSV cell
 TEXT_ALPHA = ["a", "b", "Z", "é", " ", " ", "-", "n", "N", "1", "0", ".", "*", ":", "_", "x", "µ", "=", "'", '"', " ",
-              "\x0c", "\x1c", "\x1e", "\x85", "\u2028", "\x0b"]
+              "\x0c", "\x1c", "\x1e", "\x85", "\u2028", "\x0b", "\x00"]
 
 
 def is_space(ch):
@@ -44,17 +44,19 @@ def rand_str(rng, alpha, lo, hi, bad):
     return "".join(c for c in (rng.choice(alpha) for _ in range(rng.randint(lo, hi))) if c not in bad)
 
 
-def wf_table(rng, sep, transposed=None):
-    """-> (Table, kinds). Every clause of DESIGN §3 holds by construction."""
+def wf_table(rng, sep, transposed=None, kinds=None, n_row=None):
+    """-> (Table, kinds). Every clause of DESIGN §3 holds by construction.  `kinds` / `n_row` fix the column kinds
+    and the number of rows (deterministic enumeration of small shapes)."""
     import numpy as np
     import pandas as pd
     from pdtable import Table
     bad = {sep, "\n", "\r"}
     if transposed is None:
         transposed = rng.random() < 0.45
-    n_col = rng.choice([0, 1, 1, 2, 2, 3, 4, 5])
-    n_row = rng.choice([0, 1, 1, 2, 3, 6])
-    kinds = [rng.choice(["text", "onoff", "datetime", "num", "num", "int"]) for _ in range(n_col)]
+    n_col = rng.choice([0, 1, 1, 2, 2, 3, 4, 5]) if kinds is None else len(kinds)
+    n_row = rng.choice([0, 1, 1, 2, 3, 6]) if n_row is None else n_row
+    kinds = [rng.choice(["text", "onoff", "datetime", "num", "num", "int"]) for _ in range(n_col)] \
+        if kinds is None else list(kinds)
     # 1. name
     while True:
         name = rand_str(rng, TEXT_ALPHA, 0, 6, bad)
@@ -106,6 +108,7 @@ def wf_table(rng, sep, transposed=None):
                         if rng.random() < 0.4 else rand_str(rng, TEXT_ALPHA, 0, 6, bad)
                     if any(c in bad for c in s):
                         continue
+                    s = s.rstrip("\x00")     # a text value ending in NUL is not kept by the reader (finding F3, C02)
                     if not transposed and j == 0 and (is_blank(s) or classify(s) is not None):
                         continue
                     if transposed and i == 0 and s == "":
@@ -155,7 +158,7 @@ def wf_table(rng, sep, transposed=None):
         warnings.simplefilter("ignore")
         t = Table(df, name=name, destinations=dests, units=units, transposed=transposed)
     if any(c in sep_chars_of_render(t) for c in bad):
-        return wf_table(rng, sep, transposed)       # a numeral or timestamp contains the separator: not admissible
+        return wf_table(rng, sep, transposed, kinds, n_row)   # a numeral / timestamp contains the separator: not admissible
     return t, kinds
 
 
